@@ -55,4 +55,27 @@ Section ComposeFsdp.
     unfold R. rewrite Heq.
     exact (ser_run_is_group_step_iteration thr merge (piece_shapes ms) (piece_tensors ms T) (map (piece_entry ms) h)).
   Qed.
+  (* HSDP: every replica of a shard column (any replicate size, group size, assignment; full-precision communication)
+     holds, block by block, the values the iteration of the group step produces on the recovered pieces *)
+  Theorem hsdp_replicas_follow_update_rule :
+    forall (R gs : nat) (owner : nat -> nat) thr merge (ms : list meta) T (h : list (pentry F)),
+      let L := ser_blocks thr merge (piece_shapes ms) in
+      let dims := dims_of L in
+      wf_config (hsdp_P st_empty (fn_upd Op c dims hh ans) snd_arg idv R gs owner thr merge ms) ->
+      (1 <= thr)%Z -> Forall meta_ok ms -> tensors_ok ms T -> Forall (pentry_ok ms) h ->
+      exists cl, hsdp_col_run st_empty delem (fn_upd Op c dims hh ans) snd_arg idv R gs owner thr merge ms T h = Some cl /\
+        forall i, (i < R)%nat ->
+          tab (length L) (fun b => nth b (vals (cget cl i)) [])
+          = map (b_w (F:=F))
+                (snd (model_run_fn Op c hh ans (length L) (map (ser_entry delem thr merge (piece_shapes ms)) (map (piece_entry ms) h)) 0%Z
+                                   (abs_blocks dims (length L) (ser_init_state st_empty delem thr merge (piece_shapes ms) (piece_tensors ms T))))).
+  Proof.
+    intros R gs owner thr merge ms T h L dims Hwf Hthr Hms HT Hh.
+    destruct (hsdp_eq_serial_on_recovered st_empty delem (fn_upd Op c dims hh ans) snd_arg idv R gs owner thr merge ms T h
+                (fun v => eq_refl) Hwf Hthr Hms HT Hh) as [cl [Hrun Hall]].
+    exists cl. split; [exact Hrun|]. intros i Hi. destruct (Hall i Hi) as [Hv _].
+    pose proof (ser_run_is_group_step_iteration thr merge (piece_shapes ms) (piece_tensors ms T) (map (piece_entry ms) h)) as Hm.
+    cbv zeta in Hm. fold L in Hm. fold dims in Hm. rewrite Hm.
+    cbn [snd]. unfold abs_blocks, tab. rewrite map_map. cbn [b_w]. rewrite Hv. reflexivity.
+  Qed.
 End ComposeFsdp.
